@@ -190,6 +190,7 @@ func (s *state) release() {
 	// decrement on release
 	new := atomic.AddInt32(&s.refCount, -1)
 	if new == 0 {
+		verifPoint("release.lastRef")
 		// Cleanup state associated with this version now all refs have gone. Since
 		// there are no more refs and we should not set a finalizer until this state
 		// is no longer the active state, we can be sure this will happen only one.
